@@ -286,6 +286,26 @@ PROPS = {
             "math/rand's global source after rand.Seed(s) equals rand.New(rand.NewSource(s)) (checked by the replay)",
         ],
     },
+    "C17": {
+        "harness": [{"cmd": "c17", "n": {"quick": 240, "thorough": 6000}, "extra": ["-per", "20"]}],
+        "rule": "protein alignments of 2-4 rows x 6-24 columns derived from a random ancestor at six divergence levels "
+                "(identical ... 40% replaced; one class with exact copies of earlier rows, possibly with one masked site), "
+                "7.5% of the cells replaced by '-', 'X' or '*', 8% of the cases with a gap in every column (nothing "
+                "survives gap-site removal), x 7 empirical models x model/empirical frequencies x gamma (alpha 1/2, 3/4, "
+                "1, 2) x gap-site removal x optional dyadic site weights, through protein.NewProtDistModel + InitModel + "
+                "MLDist, plus the same call on a random row permutation and on a random column permutation (weights "
+                "permuted along); every entry is judged (symmetry, zero diagonal, range, 0 for pairs without unambiguous "
+                "difference, permutation relations within 1e-5), and for every pair below the cap the likelihood of the "
+                "model's exact F at the reported distance is compared with 12 probes (x0.99, x1.01, x0.9, x1.1, x0.5, x2 "
+                "and the grid 0.02 ... 19) using log terms assembled independently from the exported eigen-decomposition; "
+                "non-trivial = some pair is optimised (differs, below the cap); distinct = distinct (options, alignment)",
+        "nontrivial": lambda m: m.get("class", 0) != 0,
+        "assumptions": [
+            "the log terms ln(pi_i P_ij(d)) come from the harness's own float assembly of P(d) from the eigen system "
+            "of models/protein (covered by C18); binary64 rounding is outside the model; likelihoods are compared with "
+            "tolerance 1e-7, permuted matrices with 1e-5 (absolute + relative)",
+        ],
+    },
     "C08": {
         "harness": [{"cmd": "c08", "n": {"quick": 600, "thorough": 20000}, "extra": ["-per", "100"]}],
         "rule": "the alignments and option sets of C07, each followed by one relation between two real calls of "
